@@ -29,6 +29,12 @@ OUTCOMES = (
     ("nested-all-skipped", "{ a o { x @skip(if: true) y @include(if: false) } b }", None, {"a": 1, "o": 1, "x": 1}, ("query", "parsing", "validation", "execution")),
     ("mutation-all-skipped", "mutation { m1 @skip(if: true) { x } m3 @include(if: false) }", None, {"m1": 1, "m3": 1, "x": 1}, ("query", "parsing", "validation", "execution")),
     ("root-directive-null-variable", "query ($v: Boolean = true) { a @skip(if: $v) b }", {"v": None}, {"a": 1}, ("query", "parsing", "validation", "execution")),
+    # (appended) requests that parse and validate but whose variable VALUES are rejected (the older 'variable-error' outcome declares a variable it never uses and is
+    # therefore refused by validation already): required variable missing / of the wrong type / null, in a query and in a mutation
+    ("variable-error-missing", "query ($v: Boolean!) { a @skip(if: $v) b }", {}, {"a": 1}, ("query", "parsing", "validation")),
+    ("variable-error-type", "query ($v: Boolean!, $w: Boolean = true) { a @skip(if: $v) o @include(if: $w) { x } }", {"v": [1]}, {"a": 1, "o": 1, "x": 1}, ("query", "parsing", "validation")),
+    ("variable-error-null", "mutation ($v: Boolean!) { m1 @skip(if: $v) { x } m3 }", {"v": None}, {"m1": 1, "m3": 1, "x": 1}, ("query", "parsing", "validation")),
+    ("variable-error-ast", "query ($v: Boolean!) { a @skip(if: $v) b }", {"v": {}}, {"a": 1}, ("query", "validation"), {"as_ast": True}),
 )
 
 
@@ -193,6 +199,8 @@ def _hooks(o: int, cfg: int, ni: int, nm: int, s0: int, s1: int, s2: int, s3: in
             return result(True, False)
     with untraced():
         problem = check_log(log, NI, NM, stages, got) if got[0] == "ok" else "request did not produce a result: %r" % (got,)
+        if not problem and label.startswith("variable-error-") and not any("ariable" in m for m, _ in got[2]):
+            problem = "the request was not refused at variable coercion (vacuous outcome): %r" % (got,)
         if not problem and PV is not None:
             problem = check_partial(log, NI, PV, PP)
     return result(problem == "", True)
